@@ -364,6 +364,12 @@ func (d *V2) Exec(cmd *Cmd) (o Outcome) {
 		if cmd.Native == "activate" {
 			d.cl.ActivateNativeInterpreter()
 		}
+		if cmd.Native == "reset" {
+			d.cl.SetInterpreter(interpreter.NewNativeInterpreter())
+		}
+		if cmd.Native == "debug" {
+			d.cl.ActivateDebug()
+		}
 		if cmd.Native == "updater-panic" {
 			d.cl.GetNativeInterpreter().AddUpdater(cmd.T, UpdText(cmd), func(item, _ map[string]*mtypes.Item) {
 				s := "partial"
